@@ -105,6 +105,7 @@ class Sched(object):
         self.switches = 0
         self._fine = {}
         self.record_labels = False
+        self.locks = []        # every scheduler-owned lock created during this execution
 
     # ---- threads
     def spawn(self, fn, name=None):
@@ -267,6 +268,7 @@ class VLock(object):
     def __init__(self, s):
         self.s = s
         self.owner = None
+        s.locks.append(self)
 
     def acquire(self, blocking=True, timeout=-1):
         self.s.block_until(lambda: self.owner is None, ('lock.acquire',))
@@ -293,6 +295,7 @@ class VRLock(object):
         self.s = s
         self.owner = None
         self.count = 0
+        s.locks.append(self)
 
     def acquire(self, blocking=True, timeout=-1):
         me = self.s.cur
